@@ -22,6 +22,16 @@ type libMsg struct {
 }
 
 func decodeLib(kind refcose.Kind, wire []byte) (*libMsg, error) {
+	// the decoder reads from a buffer of its caller, and the caller reuses that buffer as soon as the
+	// decoder has returned (a receive loop with one buffer): everything the checks do with the decoded
+	// message afterwards happens with the input bytes gone
+	buf := append([]byte{}, wire...)
+	defer func() {
+		for i := range buf {
+			buf[i] ^= 0xa5
+		}
+	}()
+	wire = buf
 	m := &libMsg{kind: kind}
 	switch kind {
 	case refcose.KSign1:
